@@ -223,7 +223,8 @@ TRUSTED_BASE = [
 
 
 def write_evidence(ctx, level, proof, extra_assumptions, n_viol):
-    os.makedirs(os.path.join(VERIF, 'evidence'), exist_ok=True)
+    evdir = os.environ.get('VERIF_EVIDENCE_DIR') or os.path.join(VERIF, 'evidence')
+    os.makedirs(evdir, exist_ok=True)
     cov = {
         'obligations': max(1, proof['obligations']),
         'discharged': proof['discharged'],
@@ -256,7 +257,7 @@ def write_evidence(ctx, level, proof, extra_assumptions, n_viol):
         'wall_s': round(time.time() - ctx.t0, 2),
         'violations': n_viol,
     }
-    path = os.path.join(VERIF, 'evidence', f'{ctx.prop}.json')
+    path = os.path.join(evdir, f'{ctx.prop}.json')
     with open(path, 'w') as f:
         json.dump(enc(ev), f, indent=1, default=str)
     return path
